@@ -173,6 +173,22 @@ CLAIMED = {
              "theorem; their tables are covered by the field theorem. READ CD sector layouts are not covered. Known finding: MODE SENSE decodes "
              "only the first mode page.",
         technique="Coq proof by reflection over regenerated tables and decoder skeletons + generic list theorem + conformant-device runs"),
+    "C05": dict(
+        text="Machine-checked proof (Coq): for each of the 22 parameter-list formats the library composes (PR OUT basic and REGISTER AND MOVE "
+             "lists, TransportID header, EXTENDED COPY LID1/LID4 headers, CSCD and segment descriptors, mode parameter headers and pages) and "
+             "EVERY valid dictionary, encoding with the library's table (REGENERATED) succeeds, has the format's length and a reader of the "
+             "standard finds each supplied value at the standard's byte/bit position (encode_places_standard + decidable per-format condition). "
+             "Every length-field store of every builder is REGENERATED (buffer, field bytes, base) and must equal Spec/ParamRules.v; such a store "
+             "provably reads back as the number of bytes that follow, for every buffer. _pad4_len is REGENERATED as an arithmetic expression and "
+             "proved to give a multiple of four with room for the terminator, for all name lengths. PARAMETER LIST LENGTH = len(data-out) is the "
+             "C03 theorem on the regenerated constructors. All five commands are constructed for generated valid dictionaries on every run and "
+             "their CDB / data-out read back by an independent standard decoder (all TransportID kinds, name lengths across padding boundaries, "
+             "non-ASCII names, 0..3 CSCD / segment descriptors of every implemented type, 1..3 mode pages).",
+        ref="DESIGN.md §4 C05",
+        note="Trusted: Coq kernel + vm_compute; translator; Spec/RespFormats.v, Spec/ParamRules.v, tools/spec_params.py (my reading of SPC-4). "
+             "Partial: how the builders concatenate descriptors (list assembly in marshall_parameter_list / marshall_dataout / the mode page loop) "
+             "is decided by the constructed-command runs, not by a theorem; the MODE DATA LENGTH of MODE SELECT is accepted as 0 or honest.",
+        technique="Coq proof by reflection over regenerated tables, length stores and padding helper + independent standard decoder runs"),
     "C10": dict(
         text="Machine-checked proof (Coq 8.16.1) of the codec laws for every buffer size, every contiguous mask at any "
              "alignment, every offset, every in-range value, every field order and arbitrary prior contents "
